@@ -3,6 +3,13 @@ package main
 import (
 	"bytes"
 	"context"
+	"crypto/ecdsa"
+	"crypto/elliptic"
+	"crypto/rand"
+	"crypto/tls"
+	"crypto/x509"
+	"crypto/x509/pkix"
+	"math/big"
 	"encoding/json"
 	"fmt"
 	"io"
@@ -158,9 +165,14 @@ func freeAddr() string {
 }
 
 func startServer(creds *client.AuthCredentials, handlers ...client.RequestHandler) (*client.CqlServer, string, context.CancelFunc) {
+	return startServerTLS(nil, creds, handlers...)
+}
+
+func startServerTLS(tlsCfg *tls.Config, creds *client.AuthCredentials, handlers ...client.RequestHandler) (*client.CqlServer, string, context.CancelFunc) {
 	for try := 0; ; try++ {
 		addr := freeAddr()
 		srv := client.NewCqlServer(addr, creds)
+		srv.TLSConfig = tlsCfg
 		srv.AcceptTimeout = 5 * time.Second
 		srv.IdleTimeout = time.Hour
 		srv.RequestHandlers = handlers
@@ -283,4 +295,20 @@ func goroutineDump() string {
 		}
 	}
 	return strings.Join(keep, " || ")
+}
+
+func contextBackground() context.Context { return context.Background() }
+
+// selfSignedTLS: a throw-away certificate for 127.0.0.1 (server side) and a client configuration that accepts it
+func selfSignedTLS() (*tls.Config, *tls.Config) {
+	key, err := ecdsa.GenerateKey(elliptic.P256(), rand.Reader)
+	must(err)
+	tmpl := &x509.Certificate{SerialNumber: big.NewInt(1), Subject: pkix.Name{CommonName: "verif"},
+		NotBefore: time.Now().Add(-time.Hour), NotAfter: time.Now().Add(24 * time.Hour),
+		KeyUsage: x509.KeyUsageDigitalSignature | x509.KeyUsageKeyEncipherment, ExtKeyUsage: []x509.ExtKeyUsage{x509.ExtKeyUsageServerAuth},
+		IPAddresses: []net.IP{net.ParseIP("127.0.0.1")}}
+	der, err := x509.CreateCertificate(rand.Reader, tmpl, tmpl, &key.PublicKey, key)
+	must(err)
+	cert := tls.Certificate{Certificate: [][]byte{der}, PrivateKey: key}
+	return &tls.Config{Certificates: []tls.Certificate{cert}}, &tls.Config{InsecureSkipVerify: true}
 }
